@@ -426,7 +426,15 @@ class Interp:
         if module == "operator" and attr in ("add", "sub", "mul", "truediv", "neg", "itemgetter", "attrgetter", "methodcaller", "eq", "ne", "lt", "le", "gt", "ge", "not_", "truth", "is_", "is_not", "contains", "getitem", "floordiv", "mod", "abs", "pos"):
             return Builtin("operator." + attr)
         if module == "itertools" and attr == "count":
-            return PyCallable(lambda it, a, k: range(a[0] if a else 0, (a[0] if a else 0) + (1 << 16), a[1] if len(a) > 1 else 1))
+            def _count(it, a, k):
+                import itertools as _it
+                return LazyGen(_it.count(_idx(a[0]) if a else _idx(k.get("start", 0)), _idx(a[1]) if len(a) > 1 else _idx(k.get("step", 1))))
+            return PyCallable(_count)
+        if module == "itertools" and attr == "cycle":
+            def _cycle(it, a, k):
+                import itertools as _it
+                return LazyGen(_it.cycle(it.iterate(a[0])))
+            return PyCallable(_cycle)
         if module == "collections" and attr == "defaultdict":
             def _dd(it, a, k):
                 d = {"__default_factory__": a[0] if a else None}
@@ -784,6 +792,7 @@ class Interp:
                 self.exec_block(st.orelse, env)
         elif isinstance(st, ast.For):
             it = self.iter_lazy(self.eval(st.iter, env))
+            self.repo.__dict__.setdefault("_executed_loops", set()).add((self._mod(env).name, st.lineno))
             broke = False
             for item in it:
                 self.assign(st.target, item, env)
@@ -798,6 +807,7 @@ class Interp:
                 self.exec_block(st.orelse, env)
         elif isinstance(st, ast.While):
             n = 0
+            self.repo.__dict__.setdefault("_executed_loops", set()).add((self._mod(env).name, st.lineno))
             while self.decide(self.eval(st.test, env)):
                 n += 1
                 if n > 10000:
@@ -1981,6 +1991,15 @@ class Interp:
             if isinstance(a[0], (float, Fraction)):
                 return repr(float(a[0]))
             return SymStr(f"{{{a[0]!r}!r}}")
+        if name.split(".")[0] in ("list", "dict", "set", "tuple", "frozenset", "str", "deque") and name.count(".") == 1 and name != "dict.fromkeys" and a:
+            # unbound method of a builtin type called with the receiver first: list.extend(xs, ys), str.lower(s), dict.get(d, k)
+            kind, meth = name.split(".")
+            recv = a[0]
+            pytypes = {"list": list, "deque": list, "dict": dict, "set": set, "tuple": tuple, "frozenset": frozenset, "str": str}
+            if isinstance(recv, pytypes[kind]):
+                if kind == "str":
+                    return _str_method(recv, meth, list(a[1:]), kwargs)
+                return self.container_method(recv, meth, list(a[1:]), kwargs)
         if name == "dict.fromkeys":
             return {_h(x): (a[1] if len(a) > 1 else None) for x in self.iterate(a[0])}
         if name == "divmod":
